@@ -8,7 +8,7 @@ fail=0
 for n in $names; do
   d=/verif/seeded/$n
   prop=$(python3 -c "import json;print(json.load(open('$d/meta.json'))['breaks_property'])")
-  checks=$prop; [ "$n" = "C02-b" ] && checks="C01 C08"; [ "$n" = "C02-e" ] && checks="C01 C08"; [ "$n" = "C06-e" ] && checks="C17"; [ "$n" = "C10-g" ] && checks="C18"; [ "$n" = "C08-h" ] && checks="C17"; [ "$n" = "C15-h" ] && checks="C17"; [ "$n" = "C02-i" ] && checks="C17"; [ "$n" = "C03-k" ] && checks="C17"; [ "$n" = "C08-k" ] && checks="C18"; [ "$n" = "C09-l" ] && checks="C18"
+  checks=$prop; [ "$n" = "C02-b" ] && checks="C01 C08"; [ "$n" = "C02-e" ] && checks="C01 C08"; [ "$n" = "C06-e" ] && checks="C17"; [ "$n" = "C10-g" ] && checks="C18"; [ "$n" = "C08-h" ] && checks="C17"; [ "$n" = "C15-h" ] && checks="C17"; [ "$n" = "C02-i" ] && checks="C17"; [ "$n" = "C03-k" ] && checks="C17"; [ "$n" = "C08-k" ] && checks="C18"; [ "$n" = "C09-l" ] && checks="C18"; [ "$n" = "C07-m" ] && checks="C18"
   (cd $W && git reset -q --hard && git clean -fdq && git checkout -q --detach $(git -C /repo rev-parse HEAD) && { git apply $d/patch.diff 2>/dev/null || git apply --3way $d/patch.diff; } && git reset -q) || { echo "$n: patch does not apply"; fail=1; continue; }
   for c in $checks; do
     (cd /verif && VERIF_REPO=$W python3 check.py $c --tier quick > /tmp/seedreg_$n_$c.log 2>&1); rc=$?
